@@ -122,15 +122,15 @@ func spellByte(sb *strings.Builder, b byte, r *Rng, style int) {
 		canon()
 		return
 	}
-	if b >= 0x80 && r.Chance(50) {
-		sb.WriteByte(b) // raw high octets are legal master-file text (UTF-8 names typed by users)
+	if b >= 0x80 && style != 3 && r.Chance(50) {
+		sb.WriteByte(b) // raw high octets are legal master-file text (UTF-8 names typed by users); style 3 never writes them
 		return
 	}
 	switch r.Intn(4) {
 	case 0:
 		fmt.Fprintf(sb, "\\%03d", b)
 	case 1:
-		if b >= '0' && b <= '9' {
+		if (b >= '0' && b <= '9') || (style == 3 && b >= 0x80) {
 			// "\5" followed by digits could form \DDD: use DDD form
 			fmt.Fprintf(sb, "\\%03d", b)
 		} else {
